@@ -174,6 +174,97 @@ def register(OPS, drv):
         finally:
             w.close()
 
+    def _serve(w, r):
+        wf = SockWFile()
+        o = drv.serve_once(w.config, drv.s2b(r["data"]), tls=r.get("tls", False), wfile=wf)
+        wf.close()
+        out = wf.final if wf.final is not None else b""
+        return {"out_b64": base64.b64encode(out).decode("ascii"), "exc": o["exc"], "log": o["log"][-3:], "secs": o["secs"]}
+
+    def op_history(job):
+        """ONE World in ONE long-lived process: steps
+             {op: req, requests: [{data, tls}]}
+             {op: write, path, data}      rewrite in place
+             {op: truncate, path}         truncate to zero bytes
+             {op: replace, path, data}    write a temporary file and rename it over the document
+           Requests follow a change at once (no sleeping)."""
+        w = drv.World(job)
+        try:
+            broot = os.fsencode(w.root)
+            out = []
+            for st in job["steps"]:
+                if st["op"] == "req":
+                    out.append({"results": [_serve(w, r) for r in st["requests"]]})
+                    continue
+                p = os.path.join(broot, drv.s2b(st["path"]))
+                if st["op"] == "write":
+                    with open(p, "wb") as f:
+                        f.write(drv.s2b(st.get("data", "")))
+                elif st["op"] == "truncate":
+                    os.truncate(p, 0)
+                elif st["op"] == "replace":
+                    with open(p + b".tmp~", "wb") as f:
+                        f.write(drv.s2b(st.get("data", "")))
+                    os.replace(p + b".tmp~", p)
+                else:
+                    raise ValueError("unknown step " + st["op"])
+                out.append({})
+            return {"steps": out}
+        finally:
+            w.close()
+
+    def op_faults(job):
+        """Requests served while an I/O fault is injected into the VFS AFTER the handler
+        multiplexer's successful stat: for each case {fault, path, requests}
+           eacces-open : open() of the path fails with EACCES
+           vanish-open : the file is deleted when it is about to be opened (ENOENT from the real open)
+           eacces-list : listdir() of the path fails with EACCES
+        Faults are injected from outside by wrapping VFS_Real.open / listdir for the duration of the request."""
+        import errno
+        import pygopherd.handlers.base as hbase
+        w = drv.World(job)
+        orig_open, orig_listdir = hbase.VFS_Real.open, hbase.VFS_Real.listdir
+        res = []
+        try:
+            for case in job["cases"]:
+                target = case["path"]           # selector
+                fault = case["fault"]
+                saved = {}
+
+                def f_open(self, selector, *a, **k):
+                    if selector == target:
+                        if fault == "eacces-open":
+                            raise PermissionError(errno.EACCES, "Permission denied", self.getfspath(selector))
+                        if fault == "vanish-open":
+                            fp = os.fsencode(self.getfspath(selector))
+                            if os.path.exists(fp):
+                                with open(fp, "rb") as fh:
+                                    saved[fp] = fh.read()
+                                os.unlink(fp)
+                    return orig_open(self, selector, *a, **k)
+
+                def f_listdir(self, selector):
+                    if fault == "eacces-list" and selector.rstrip("/") == target.rstrip("/"):
+                        raise PermissionError(errno.EACCES, "Permission denied", self.getfspath(selector))
+                    return orig_listdir(self, selector)
+
+                outs = []
+                for r in case["requests"]:
+                    hbase.VFS_Real.open, hbase.VFS_Real.listdir = f_open, f_listdir
+                    try:
+                        outs.append(_serve(w, r))
+                    finally:
+                        hbase.VFS_Real.open, hbase.VFS_Real.listdir = orig_open, orig_listdir
+                        for fp, data in saved.items():      # put a vanished file back for the next request
+                            with open(fp, "wb") as fh:
+                                fh.write(data)
+                        saved.clear()
+                res.append({"results": outs})
+            return {"cases": res}
+        finally:
+            hbase.VFS_Real.open, hbase.VFS_Real.listdir = orig_open, orig_listdir
+            w.close()
+
     def op_live(job):
         """The real ThreadingTCPServer + GopherRequestHandler on an ephemeral port with the
         demo certificate; plain requests over TCP, TLS requests through a real ssl client."""
@@ -228,6 +319,8 @@ def register(OPS, drv):
         return {"root": w.root, "results": res}
 
     OPS["c04_live"] = op_live
+    OPS["c04_history"] = op_history
+    OPS["c04_faults"] = op_faults
     OPS["c04_documented"] = op_documented
     OPS["c04_escape"] = op_escape
     OPS["c04_dec"] = op_dec
